@@ -295,6 +295,14 @@ def run (c : Cfg) (conv : Bytes → Option Bytes) : GState → List Item → Opt
 def general (c : Cfg) (conv : Bytes → Option Bytes) (items : List Item) : Option Sinks :=
   run c conv {} items
 
+/-- The one place where the read schedule below this level shows: when the first read chunk holds a single
+start code (the first NAL unit is not shorter than the chunk: ≥ 100 kB in the unhooked tool), hevc_parser hands
+over an empty NAL list first, `payload_count` is 1 when the first NAL arrives, and no NAL is "the first of the
+stream" (`late = true`).  Only the start-code length of that NAL under `--start-code annex-b` can differ
+(`Props/C05.lean: late_first_nal_same_bytes`). -/
+def generalFrom (late : Bool) (c : Cfg) (conv : Bytes → Option Bytes) (items : List Item) : Option Sinks :=
+  run c conv { idx := if late then 1 else 0 } items
+
 /-! ### extract-rpu: `flush_writer` -/
 
 /-- stable insertion by key (`sort_by_cached_key` is a stable sort) -/
